@@ -467,3 +467,239 @@ Proof.
   - intros ->. rewrite (vis_model_is_spec c p OK2). unfold spec_vis. rewrite L. reflexivity.
   - intros [-> | ->]; rewrite (weights_model_is_spec c p OK2); unfold spec_weights; rewrite L; rewrite ?orb_true_r; reflexivity.
 Qed.
+
+(* ================================================================================================ *)
+(* 4. chunk_info records: _align_chunk_info, _upgrade_chunk_info *)
+
+Lemma fold_max_ge : forall l x, In x l -> x <= fold_right Z.max 0 l.
+Proof.
+  induction l as [|y l IH]; intros x H; [destruct H|]. destruct H as [->|H]; simpl; [lia|]. specialize (IH x H). lia.
+Qed.
+
+Lemma fold_max_nonneg l : 0 <= fold_right Z.max 0 l.
+Proof. induction l as [|y l IH]; simpl; lia. Qed.
+
+Lemma fold_max_const : forall l m, 0 <= m -> l <> [] -> (forall x, In x l -> x = m) -> fold_right Z.max 0 l = m.
+Proof.
+  induction l as [|y l IH]; intros m Hm N H; [congruence|]. simpl.
+  rewrite (H y (or_introl eq_refl)). destruct l as [|z l]; [simpl; lia|].
+  rewrite (IH m Hm) by (try discriminate; intros x Hx; apply H; right; exact Hx). lia.
+Qed.
+
+Lemma info_dumps_le all i : In i all -> info_dumps i <= info_max_dumps all.
+Proof. intro H. apply fold_max_ge. apply in_map. exact H. Qed.
+
+(* after alignment every array has the dump count of the longest one *)
+Lemma align_info_one_dumps maxd i : info_dumps i <= maxd -> info_dumps (align_info_one maxd i) = maxd.
+Proof.
+  intro H. unfold align_info_one, gen_align_pads. destruct (info_dumps i <? maxd) eqn:E.
+  - reflexivity.
+  - lia.
+Qed.
+
+Lemma align_info_dumps all i : In i (align_info all) -> info_dumps i = info_max_dumps all.
+Proof.
+  unfold align_info. rewrite in_map_iff. intros (j & <- & Hj). apply align_info_one_dumps. apply info_dumps_le. exact Hj.
+Qed.
+
+(* nothing that was described as stored is dropped: the dump-axis chunks are the given ones followed by
+   (max_dumps - n_dumps) phantom chunks of one dump; the other axes are untouched *)
+Lemma align_info_one_chunks maxd i :
+  hd [] (i_chunks (align_info_one maxd i)) = hd [] (i_chunks i) ++ repeat 1 (Z.to_nat (maxd - info_dumps i)) /\
+  tl (i_chunks (align_info_one maxd i)) = tl (i_chunks i) /\
+  tl (i_shape (align_info_one maxd i)) = tl (i_shape i).
+Proof.
+  unfold align_info_one, gen_align_pads, gen_align_phantom_size, gen_align_phantom_count.
+  destruct (info_dumps i <? maxd) eqn:E; cbn [i_chunks i_shape hd tl].
+  - repeat split; reflexivity.
+  - replace (Z.to_nat (maxd - info_dumps i)) with 0%nat by lia. cbn [repeat]. rewrite app_nil_r. repeat split; reflexivity.
+Qed.
+
+Lemma align_info_idempotent all : align_info (align_info all) = align_info all.
+Proof.
+  assert (M : info_max_dumps (align_info all) = info_max_dumps all \/ all = []).
+  { destruct all as [|i0 t]; [right; reflexivity|left].
+    unfold info_max_dumps at 1. apply fold_max_const.
+    - apply fold_max_nonneg.
+    - discriminate.
+    - intros x Hx. rewrite in_map_iff in Hx. destruct Hx as (j & <- & Hj). apply align_info_dumps. exact Hj. }
+  destruct M as [M| ->]; [|reflexivity].
+  unfold align_info at 1. rewrite M.
+  rewrite <- (map_id (align_info all)) at 2. apply map_ext_in. intros i Hi.
+  pose proof (align_info_dumps all i Hi) as D.
+  unfold align_info_one, gen_align_pads. rewrite D. rewrite Z.ltb_irrefl. reflexivity.
+Qed.
+
+(* on consistent records (shape = sums of the chunks) the chunk lists are Model.LostMap.align of the chunk lists,
+   and the records stay consistent *)
+Lemma consistent_dumps i : info_consistent i -> info_dumps i = n_dumps (i_chunks i).
+Proof.
+  intros [S N]. unfold info_dumps, n_dumps. rewrite S. destruct (i_chunks i) as [|t r]; [congruence|reflexivity].
+Qed.
+
+Lemma consistent_max all : Forall info_consistent all -> info_max_dumps all = max_dumps (map i_chunks all).
+Proof.
+  intro F. unfold info_max_dumps, max_dumps. rewrite map_map. f_equal. apply map_ext_in. intros i Hi.
+  rewrite Forall_forall in F. apply consistent_dumps. apply F. exact Hi.
+Qed.
+
+Lemma align_info_one_consistent maxd i : info_consistent i -> info_dumps i <= maxd ->
+  i_chunks (align_info_one maxd i) = align_one maxd (i_chunks i) /\ info_consistent (align_info_one maxd i).
+Proof.
+  intros C Hle. pose proof (consistent_dumps i C) as D. destruct C as [S N].
+  unfold align_info_one, gen_align_pads, gen_align_phantom_size, gen_align_phantom_count.
+  destruct (i_chunks i) as [|t r] eqn:EC; [congruence|].
+  unfold n_dumps in D. cbn [hd] in D.
+  destruct (info_dumps i <? maxd) eqn:E; cbn [i_chunks i_shape hd tl align_one].
+  - rewrite D. split; [reflexivity|]. unfold info_consistent. cbn [i_shape i_chunks]. split; [|discriminate].
+    rewrite S. cbn [i_shape i_chunks map tl]. f_equal. rewrite zsum_app.
+    assert (R : forall k, zsum (repeat 1 k) = Z.of_nat k).
+    { induction k as [|k IH]; [reflexivity|]. cbn [repeat]. change (zsum (1 :: repeat 1 k)) with (1 + zsum (repeat 1 k)).
+      rewrite IH. lia. }
+    rewrite R. lia.
+  - rewrite EC. replace (Z.to_nat (maxd - zsum t)) with 0%nat by lia. cbn [repeat]. rewrite app_nil_r.
+    split; [reflexivity|]. split; [rewrite EC; exact S|rewrite EC; discriminate].
+Qed.
+
+Lemma align_info_consistent all : Forall info_consistent all ->
+  map i_chunks (align_info all) = align (map i_chunks all) /\ Forall info_consistent (align_info all).
+Proof.
+  intro F. unfold align_info, align. rewrite <- (consistent_max all F). rewrite !map_map.
+  split.
+  - apply map_ext_in. intros i Hi. rewrite Forall_forall in F.
+    apply (align_info_one_consistent _ i (F i Hi) (info_dumps_le all i Hi)).
+  - rewrite Forall_forall. intros j Hj. rewrite in_map_iff in Hj. destruct Hj as (i & <- & Hi).
+    rewrite Forall_forall in F. apply (align_info_one_consistent _ i (F i Hi) (info_dumps_le all i Hi)).
+Qed.
+
+(* _upgrade_chunk_info *)
+Lemma set_nth_same {A} : forall n (x : A) l, (n < List.length l)%nat -> nth_error (set_nth n x l) n = Some x.
+Proof. induction n as [|n IH]; intros x [|y l] H; simpl in *; try lia; [reflexivity|]. apply IH. lia. Qed.
+
+Lemma set_nth_other {A} : forall n k (x : A) l, k <> n -> nth_error (set_nth n x l) k = nth_error l k.
+Proof.
+  induction n as [|n IH]; intros [|k] x [|y l] H; simpl; try reflexivity; try congruence.
+  apply IH. congruence.
+Qed.
+
+Lemma set_nth_length {A} : forall n (x : A) l, List.length (set_nth n x l) = List.length l.
+Proof. induction n as [|n IH]; intros x [|y l]; simpl; try reflexivity. rewrite IH. reflexivity. Qed.
+
+(* refused iff the shapes differ beyond the dump axis; otherwise the WHOLE improved record (all its chunks, its own
+   dump count) replaces the entry and every other entry is untouched *)
+Lemma upgrade_info_spec all key imp orig : nth_error all key = Some orig ->
+  (tl (i_shape imp) <> tl (i_shape orig) -> upgrade_info all key imp = None) /\
+  (tl (i_shape imp) = tl (i_shape orig) ->
+     exists r, upgrade_info all key imp = Some r /\ nth_error r key = Some imp /\
+               List.length r = List.length all /\ forall k, k <> key -> nth_error r k = nth_error all k).
+Proof.
+  intro H. unfold upgrade_info, gen_upgrade_compares_shape_from. rewrite H.
+  change (skipn 1 (i_shape imp)) with (tl (i_shape imp)). change (skipn 1 (i_shape orig)) with (tl (i_shape orig)).
+  split; intro E.
+  - destruct (zs_eqb (tl (i_shape imp)) (tl (i_shape orig))) eqn:Z; [|reflexivity].
+    apply zs_eqb_eq in Z. contradiction.
+  - rewrite E, zs_eqb_refl. eexists. split; [reflexivity|]. split; [|split].
+    + apply set_nth_same. apply nth_error_Some. congruence.
+    + apply set_nth_length.
+    + intros k Hk. apply set_nth_other. exact Hk.
+Qed.
+
+Lemma skipn1_tl {A} (l : list A) : skipn 1 l = tl l.
+Proof. destruct l; reflexivity. Qed.
+
+(* a flags stream of its own: the data set gets the dump count of the longest of ALL arrays (the L1 flags included),
+   and the flags array keeps every chunk of the flags stream, padded with phantom chunks if L0 is longer *)
+Lemma source_info_flags_stream l0 f orig : nth_error l0 A_FLAGS = Some orig -> tl (i_shape f) = tl (i_shape orig) ->
+  exists u r fl, upgrade_info l0 A_FLAGS f = Some u /\ source_info l0 (Some f) = Some r /\
+    nth_error r A_FLAGS = Some fl /\
+    (forall i, In i r -> info_dumps i = info_max_dumps u) /\
+    info_dumps f <= info_max_dumps u /\
+    (forall k i, k <> A_FLAGS -> nth_error l0 k = Some i -> info_dumps i <= info_max_dumps u) /\
+    hd [] (i_chunks fl) = hd [] (i_chunks f) ++ repeat 1 (Z.to_nat (info_max_dumps u - info_dumps f)) /\
+    tl (i_chunks fl) = tl (i_chunks f).
+Proof.
+  intros H E. destruct (upgrade_info_spec l0 A_FLAGS f orig H) as [_ U]. destruct (U E) as (u & Hu & Hf & HL & Ho).
+  exists u, (align_info u), (align_info_one (info_max_dumps u) f).
+  split; [exact Hu|]. split; [unfold source_info; rewrite Hu; reflexivity|].
+  split; [unfold align_info; apply map_nth_error; exact Hf|].
+  split; [intros i Hi; apply align_info_dumps; exact Hi|].
+  split; [apply info_dumps_le; apply nth_error_In with A_FLAGS; exact Hf|].
+  split.
+  - intros k i Hk Hi. apply info_dumps_le. apply nth_error_In with k. rewrite Ho by exact Hk. exact Hi.
+  - destruct (align_info_one_chunks (info_max_dumps u) f) as (A & B & _). split; assumption.
+Qed.
+
+(* ================================================================================================ *)
+(* 5. laws that follow from model = spec *)
+
+(* _apply_data_lost: the order of the (chunk, slices) pairs does not matter, applying the list twice changes
+   nothing, pairs whose chunk is not a placeholder are ignored *)
+Lemma existsb_perm {A} (f : A -> bool) l l' : Permutation l l' -> existsb f l = existsb f l'.
+Proof.
+  induction 1; simpl; try congruence.
+  - destruct (f x), (f y); reflexivity.
+Qed.
+
+Lemma apply_data_lost_perm ph orig l l' q : Permutation l l' ->
+  apply_data_lost ph orig l q = apply_data_lost ph orig l' q.
+Proof. intro P. rewrite !apply_data_lost_spec. rewrite (existsb_perm _ l l' P). reflexivity. Qed.
+
+Lemma apply_data_lost_idem ph orig l q :
+  apply_data_lost ph (apply_data_lost ph orig l q) l q = apply_data_lost ph orig l q.
+Proof.
+  rewrite !apply_data_lost_spec. rewrite <- Z.lor_assoc.
+  rewrite Z.lor_diag. reflexivity.
+Qed.
+
+Lemma apply_data_lost_none ph orig l q :
+  (forall e, In e l -> ph (fst (fst e)) (snd (fst e)) = false) -> apply_data_lost ph orig l q = orig.
+Proof.
+  intro H. rewrite apply_data_lost_spec.
+  replace (existsb _ l) with false; [apply Z.lor_0_r|].
+  symmetry. apply not_true_is_false. intro X. apply existsb_exists in X. destruct X as (e & Hin & He).
+  rewrite (H e Hin) in He. discriminate.
+Qed.
+
+(* nothing absent: the load returns exactly what is stored *)
+Lemma no_loss_identity c p : cfg_ok c p -> (forall a id, c_miss c a id = false) ->
+  model_vis c p = stored c A_VIS p /\ model_weights c p = stored c A_W p * stored c A_WC p /\
+  model_flags c p = stored c A_FLAGS p.
+Proof.
+  intros OK H. rewrite (vis_model_is_spec c p OK), (weights_model_is_spec c p OK), (flags_model_is_spec c p OK).
+  unfold spec_vis, spec_weights, spec_flags, lost_in. rewrite !H. cbn [orb]. rewrite Z.lor_0_r. repeat split; reflexivity.
+Qed.
+
+(* losing more chunks never clears data_lost and never changes an element that is still delivered *)
+Definition with_miss (c : cfg) (m : nat -> list Z -> bool) : cfg :=
+  {| c_chunks := c_chunks c; c_win := c_win c; c_miss := m; c_dat := c_dat c |}.
+
+Lemma loss_monotone c m p : cfg_ok c p -> (forall a id, c_miss c a id = true -> m a id = true) ->
+  (Z.testbit (model_flags c p) 3 = true -> Z.testbit (model_flags (with_miss c m) p) 3 = true) /\
+  (model_vis (with_miss c m) p <> 0 -> model_vis (with_miss c m) p = model_vis c p) /\
+  (model_weights (with_miss c m) p <> 0 -> model_weights (with_miss c m) p = model_weights c p).
+Proof.
+  intros OK H.
+  assert (OK2 : cfg_ok (with_miss c m) p) by exact OK.
+  assert (L : forall a, lost_in c a p = true -> lost_in (with_miss c m) a p = true).
+  { intros a. unfold lost_in. apply H. }
+  assert (S : forall a, stored (with_miss c m) a p = stored c a p) by reflexivity.
+  split; [|split].
+  - destruct (flag_bits c p OK) as [B _]. destruct (flag_bits (with_miss c m) p OK2) as [B2 _].
+    rewrite B, B2. unfold any_lost. rewrite S.
+    pose proof (L A_FLAGS) as L0. pose proof (L A_VIS) as L1. pose proof (L A_W) as L2. pose proof (L A_WC) as L3.
+    destruct (lost_in c A_FLAGS p), (lost_in c A_VIS p), (lost_in c A_W p), (lost_in c A_WC p);
+      cbn [orb negb andb]; intro X;
+      rewrite ?(L0 eq_refl), ?(L1 eq_refl), ?(L2 eq_refl), ?(L3 eq_refl); cbn [orb negb andb];
+      rewrite ?orb_true_r; try reflexivity; try discriminate.
+    destruct (lost_in (with_miss c m) A_FLAGS p); cbn [orb negb andb]; [reflexivity|].
+    rewrite X. rewrite orb_true_r. reflexivity.
+  - rewrite (vis_model_is_spec c p OK), (vis_model_is_spec _ p OK2). unfold spec_vis. rewrite S.
+    pose proof (L A_VIS) as L1.
+    destruct (lost_in c A_VIS p); [rewrite (L1 eq_refl); congruence|].
+    destruct (lost_in (with_miss c m) A_VIS p); congruence.
+  - rewrite (weights_model_is_spec c p OK), (weights_model_is_spec _ p OK2). unfold spec_weights. rewrite !S.
+    pose proof (L A_W) as L2. pose proof (L A_WC) as L3.
+    destruct (lost_in c A_W p); [rewrite (L2 eq_refl); cbn [orb]; congruence|].
+    destruct (lost_in c A_WC p); [rewrite (L3 eq_refl), orb_true_r; congruence|].
+    destruct (lost_in (with_miss c m) A_W p || lost_in (with_miss c m) A_WC p); cbn [orb]; congruence.
+Qed.
